@@ -284,3 +284,68 @@ package proxy
 //@ func (*players).remove
 //@   props C12
 //@   loop 1: invariant rangeindex >= -1 && rangeindex < len(players) && held(p.mu) == wlocked
+
+// ---- C25: plugin channel events fire with the real message body ------------------------------------------------------
+// The event hands out its data slice; every handler below puts a copy of the message BODY there (never the raw packet)
+// and its callback forwards exactly that slice (what the subscribers saw, and possibly edited in place) on the
+// original channel, and only if the event is still allowed.
+//@ func (*PluginMessageEvent).Data
+//@   props C25
+//@   ensures [hands-out-the-event-data] ref(result) == ref(p.data) && len(result) == len(p.data)
+//@ func (*PluginMessageEvent).Allowed
+//@   props C25
+//@   ensures result == p.forward
+
+// client -> backend, play phase. A registration is announced (one Fire site) iff forwarding it to the backend succeeded.
+//@ func (*clientPlaySessionHandler).handlePluginMessage
+//@   props C25
+//@   at-call IsRegister as isreg: assert arg0 == packet
+//@   at-call WritePacket#1 as fwdreg: assert [registration-forwarded-unchanged] called(isreg) && res(isreg) && ref(arg1) == packet
+//@   at-call Fire<*proxy.PlayerChannelRegisterEvent> as regev: assert [register-event-only-after-a-successful-forward] called(fwdreg) && res(fwdreg) == nil
+//@   ensures [forwarded-registration-raises-the-event] called(fwdreg) && res(fwdreg) == nil ==> called(regev)
+//@   at-call FireParallel<*proxy.PluginMessageEvent> as pme: assert [event-carries-a-copy-of-the-body] ref(arg1.data) == ref(clone) && ref(clone) != ref(packet.Data) && len(arg1.data) == len(packet.Data) && (forall i int :: 0 <= i && i < len(packet.Data) ==> arg1.data[i] == packet.Data[i])
+//@ func (*clientPlaySessionHandler).handlePluginMessage$1
+//@   props C25
+//@   at-call Allowed as ok: assert arg0 == e
+//@   at-call WritePacket as fwd: assert [forwards-what-the-subscribers-saw] called(ok) && res(ok) && dyntype(arg1, "plugin.Message") && streq(cast(arg1, *plugin.Message).Channel, packet.Channel) && ref(cast(arg1, *plugin.Message).Data) == ref(clone) && len(cast(arg1, *plugin.Message).Data) == len(clone)
+//@   ensures [allowed-is-forwarded] called(ok) && (res(ok) ==> called(fwd))
+
+// backend -> client, configuration phase.
+//@ func (*backendConfigSessionHandler).handlePluginMessage
+//@   props C25
+//@   at-call SetAutoReading#1 as pause: assert [copy-of-the-body] len(bytes) == len(p.Data) && (forall i int :: 0 <= i && i < len(p.Data) ==> bytes[i] == p.Data[i])
+//@   at-call FireParallel<*proxy.PluginMessageEvent> as pme: assert [event-carries-the-copy] called(pause) && ref(arg1.data) == ref(bytes) && ref(bytes) != ref(old(p.Data)) && ref(bytes) != ref(old(pc.Payload)) && len(arg1.data) == len(old(p.Data))
+//@ func (*backendConfigSessionHandler).handlePluginMessage$1
+//@   props C25
+//@   at-call Allowed as ok: assert arg0 == pme
+//@   at-call Data as d: assert arg0 == pme
+//@   at-call forwardToPlayer as fwd: assert [forwards-what-the-subscribers-saw] called(ok) && res(ok) && arg1 == nil && dyntype(arg2, "plugin.Message") && streq(cast(arg2, *plugin.Message).Channel, p.Channel) && called(d) && ref(cast(arg2, *plugin.Message).Data) == ref(res(d)) && len(cast(arg2, *plugin.Message).Data) == len(res(d))
+
+// backend -> client, play phase.
+//@ func (*backendPlaySessionHandler).handlePluginMessage
+//@   props C25
+//@   at-call FireParallel<*proxy.PluginMessageEvent> as pme: assert [event-carries-a-copy-of-the-body] ref(arg1.data) == ref(clone) && ref(clone) != ref(packet.Data) && len(arg1.data) == len(packet.Data) && (forall i int :: 0 <= i && i < len(packet.Data) ==> arg1.data[i] == packet.Data[i])
+//@ func (*backendPlaySessionHandler).handlePluginMessage$1
+//@   props C25
+//@   at-call Allowed as ok: assert arg0 == pme
+//@   at-call Data as d: assert arg0 == pme
+//@   at-call forwardToPlayer as fwd: assert [forwards-what-the-subscribers-saw] called(ok) && res(ok) && arg1 == nil && dyntype(arg2, "plugin.Message") && streq(cast(arg2, *plugin.Message).Channel, packet.Channel) && called(d) && ref(cast(arg2, *plugin.Message).Data) == ref(res(d)) && len(cast(arg2, *plugin.Message).Data) == len(res(d))
+
+// client -> backend, configuration phase (the event carries the body slice itself).
+//@ func (*clientConfigSessionHandler).handlePluginMessage
+//@   props C25
+//@   at-call FireParallel<*proxy.PluginMessageEvent> as pme: assert [event-carries-the-body] ref(arg1.data) == ref(p.Data) && len(arg1.data) == len(p.Data)
+//@ func (*clientConfigSessionHandler).handlePluginMessage$1
+//@   props C25
+//@   at-call Allowed as ok: assert arg0 == pme
+//@   at-call WritePacket as fwd: assert [forwards-what-the-subscribers-saw] called(ok) && res(ok) && dyntype(arg1, "plugin.Message") && streq(cast(arg1, *plugin.Message).Channel, p.Channel) && ref(cast(arg1, *plugin.Message).Data) == ref(pme.data) && len(cast(arg1, *plugin.Message).Data) == len(pme.data)
+
+// client -> backend, before the first server is joined.
+//@ func (*initialConnectSessionHandler).handlePluginMessage
+//@   props C25
+//@   at-call FireParallel<*proxy.PluginMessageEvent> as pme: assert [event-carries-a-copy-of-the-body] ref(arg1.data) == ref(clone) && ref(clone) != ref(packet.Data) && len(arg1.data) == len(packet.Data) && (forall i int :: 0 <= i && i < len(packet.Data) ==> arg1.data[i] == packet.Data[i])
+//@ func (*initialConnectSessionHandler).handlePluginMessage$1
+//@   props C25
+//@   at-call Allowed as ok: assert arg0 == pme
+//@   at-call Data as d: assert arg0 == pme
+//@   at-call WritePacket as fwd: assert [forwards-what-the-subscribers-saw] called(ok) && res(ok) && dyntype(arg1, "plugin.Message") && streq(cast(arg1, *plugin.Message).Channel, packet.Channel) && called(d) && ref(cast(arg1, *plugin.Message).Data) == ref(res(d)) && len(cast(arg1, *plugin.Message).Data) == len(res(d))
